@@ -1,5 +1,6 @@
 import Revm.Proofs.EvmLinkFeeVal
 import Revm.Proofs.EvmSpec
+import Revm.Proofs.EvmLinkLoop2
 /-! C01Link — the whole-transaction model `Revm.Model.Evm.transact` (C01) SATISFIES the component properties.
 
 `Evm.transact` (EvmTx / EvmFrame / EvmLoop / EvmHost) was written independently of the component models that carry the
@@ -270,5 +271,116 @@ theorem transact_halt_used_exact (fuel : Nat) (w w' : World) (e : Evm.Env) (spec
   exact Props.C09.halt_used_exact _ ig fg k _ ha hgc (by omega)
 
 example : (Interp.IResult.OutOfGas).isOk = false ∧ (Interp.IResult.OutOfGas).isRevert = false := ⟨rfl, rfl⟩
+
+/-! ## 3. frame depth (C07)
+
+The checkpoint discipline of `EvmFrame` / `EvmLoop` is re-proved directly on the whole-EVM frame machine (the
+journal-level depth lemmas of C07 are reused; `make_call_frame` / `make_create_frame` are first cut into the stages
+of `Model.Frame` — `makeCallFrame_staged`, `makeCreateFrame_staged`, equalities by `rfl`). Runs are stated WITHOUT fuel:
+`Steps cfg n m` is the step relation of `run_the_loop` (`iterate` / `frameEnd`), and every completed `Evm.runLoop` run
+is a `Steps` path (`runLoop_steps`). -/
+
+open Revm.Model.Journal (incU64 decU64) in
+/-- COROLLARY (C07 `frame_depth_neutral_call` on EvmFrame): an immediate result of `make_call_frame` leaves the journal
+depth unchanged; an opened frame, once `call_return` runs on a state of the depth right after frame creation, returns
+to the depth before the call — whatever the frame's result -/
+theorem evm_frame_depth_neutral_call (cfg : Cfg) (w w1 : World) (i : Interp.CallInputs) (mem : Memory.SharedMemory)
+    (fr : FrameOrResult Journal.Checkpoint) (h : makeCallFrame journalOps cfg w i mem = .ok (fr, w1)) :
+    (∀ r, fr = .result r → w1.js.depth = w.js.depth) ∧
+    (∀ f, fr = .frame f → ∀ (w2 w3 : World) (res res' : Interp.ChildResult),
+      w2.js.depth = w1.js.depth → callReturn journalOps w2 f.checkpoint res = .ok (res', w3) →
+      w3.js.depth = w.js.depth) := by
+  obtain ⟨x, y⟩ := makeCallFrame_depth h
+  refine ⟨fun r hr => (x r hr).1, fun f hf w2 w3 res res' h2 h3 => ?_⟩
+  rw [callReturn_depth h3, h2, (y f hf).1, Proofs.Frame.dec_inc]
+
+open Revm.Model.Journal (incU64 decU64) in
+/-- COROLLARY (C07 `frame_depth_neutral_create` on EvmFrame): the same for `make_create_frame` + `create_return`, on
+every path (depth, OutOfFunds, nonce overflow, precompile address, collision, balance overflow; result not ok, EF first
+byte, size limit, code-deposit failure before / after Homestead, success) -/
+theorem evm_frame_depth_neutral_create (cfg : Cfg) (w w1 : World) (i : Interp.CreateInputs)
+    (mem : Memory.SharedMemory) (fr : FrameOrResult Journal.Checkpoint)
+    (h : makeCreateFrame journalOps cfg w i mem = .ok (fr, w1)) :
+    (∀ r, fr = .result r → w1.js.depth = w.js.depth) ∧
+    (∀ f, fr = .frame f → ∀ (w2 w3 : World) (a : Nat) (res res' : Interp.ChildResult),
+      w2.js.depth = w1.js.depth → createReturn journalOps cfg w2 f.checkpoint a res = .ok (res', w3) →
+      w3.js.depth = w.js.depth) := by
+  obtain ⟨x, y⟩ := makeCreateFrame_depth h
+  refine ⟨fun r hr => (x r hr).1, fun f hf w2 w3 a res res' h2 h3 => ?_⟩
+  rw [createReturn_depth h3, h2, (y f hf).1, Proofs.Frame.dec_inc]
+
+/-- COROLLARY (C07 `host_op_depth_neutral` on EvmHost): no answer of the journal-backed `Host` moves the depth -/
+theorem evm_host_depth_neutral (he : HostEnv) (w w1 : World) (op : Interp.HostOp) (resp : Interp.HostResp)
+    (h : answer he w op = .ok (resp, w1)) : w1.js.depth = w.js.depth := answer_depth h
+
+/-- COROLLARY (C07 `loop_depth_invariant_from` on EvmLoop): along ANY run of `run_the_loop` — any program, any number
+of steps, no fuel in the statement — from a state with `journal depth = frame-stack length`, every state passed
+satisfies it (`1 ≤ length ≤ 1025`), and the depth is 0 once the first frame has returned -/
+theorem evm_loop_depth_invariant (cfg : Cfg) (stack : List JFrame) (w : World) (n : Next Journal.Checkpoint)
+    (hi : LoopInv stack w) (t : Steps cfg (.run stack w) n) : NextInv n :=
+  steps_inv t (.run hi)
+
+/-- every completed fuel-indexed run of `Evm.runLoop` is such a run, and ends at depth 0 -/
+theorem evm_runLoop_ends_at_depth_zero (cfg : Cfg) (fuel : Nat) (stack : List JFrame) (w w' : World)
+    (r : Interp.ChildResult) (hi : LoopInv stack w) (h : runLoop journalOps cfg fuel stack w = .ok (r, w')) :
+    Steps cfg (.run stack w) (.done r w') ∧ w'.js.depth = 0 :=
+  ⟨(runLoop_steps cfg fuel).1 _ _ _ _ h, runLoop_depth_zero hi h⟩
+
+/-- COROLLARY (C07 `loop_depth_invariant` on a whole `Evm.transact`): from a journal at depth 0 (a fresh `Evm`), after
+validation and `prepare` the first frame runs at depth 1 = one frame on the stack, every state the loop passes has
+`depth = stack length`, and the first frame's result is delivered at depth 0 -/
+theorem transact_depth_invariant (w w1 w2 : World) (e : Evm.Env) (spec ig fg k : Nat) (isCreate : Bool)
+    (first : FrameOrResult Journal.Checkpoint) (h0 : w.js.depth = 0)
+    (hp : Evm.preverify w e spec = .ok (some (w1, ig, fg)))
+    (hpr : Evm.prepare journalOps e spec ig w1 = .ok (first, w2, isCreate, k)) :
+    (∀ f, first = .frame f → ∀ n, Steps (e.toCfg spec) (.run [f] w2) n → NextInv n) ∧
+    (∀ fuel res w3, Evm.runFirst journalOps (e.toCfg spec) fuel first w2 = .ok (res, w3) → w3.js.depth = 0) := by
+  obtain ⟨_, _, _, _, acc, code, hl, _⟩ := preverify_some_inv w w1 e spec ig fg hp
+  obtain ⟨cold, hh, hlc, _⟩ := loadSender_inv hl
+  have h1 : w1.js.depth = 0 := by rw [w_loadCode_depth hlc, h0]
+  obtain ⟨hf, hr⟩ := prepare_inv h1 hpr
+  refine ⟨fun f hfr n t => steps_inv t (.run (hf f hfr)), fun fuel res w3 hrun => ?_⟩
+  cases first with
+  | frame f => exact runLoop_depth_zero (hf f rfl) hrun
+  | result r =>
+    simp only [runFirst, pure, Except.pure, Except.ok.injEq, Prod.mk.injEq] at hrun
+    rw [← hrun.2]; exact hr r rfl
+
+example : sampleWorld.js.depth = 0 := rfl
+
+/-- the invariant is satisfiable: one frame on the stack, journal at depth 1 -/
+example : ∃ (stack : List JFrame) (w : World), LoopInv stack w :=
+  ⟨[{ kind := .call 0 0, checkpoint := { logI := 0, journalI := 1 },
+      interp := Interp.IState.init [] [] 0 false 17 0 0 0 {} Memory.new }],
+   { js := (Journal.checkpoint (Journal.JState.new 17 (fun _ => false))).1 }, rfl, by decide, by decide⟩
+
+/-- COROLLARY (C07 `max_depth` on EvmLoop): in every loop state with `depth = stack length` — i.e. every state a
+transaction reaches, by `transact_depth_invariant` — a CALL-family action is refused with `CallTooDeep` iff the calling
+frame is exactly 1024 levels below the transaction frame; frames never sit deeper -/
+theorem evm_max_depth (cfg : Cfg) (stack : List JFrame) (w w' : World) (i : Interp.CallInputs)
+    (mem : Memory.SharedMemory) (fr : FrameOrResult Journal.Checkpoint) (hi : LoopInv stack w)
+    (h : makeCallFrame journalOps cfg w i mem = .ok (fr, w')) :
+    ((∃ r, fr = .result r ∧ r.result = .CallTooDeep) ↔ stack.length - 1 = CALL_STACK_LIMIT) ∧
+    stack.length - 1 ≤ CALL_STACK_LIMIT := by
+  obtain ⟨h1, h2, h3⟩ := hi
+  obtain ⟨x, y⟩ := makeCallFrame_depth h
+  refine ⟨⟨fun ⟨r, hr, hc⟩ => ?_, fun hl => ?_⟩, by omega⟩
+  · have := ((x r hr).2).1 hc; omega
+  · cases fr with
+    | result r => exact ⟨r, rfl, ((x r rfl).2).2 (by omega)⟩
+    | frame f => exact absurd (show w.js.depth > CALL_STACK_LIMIT by omega) (y f rfl).2
+
+/-- the same for CREATE / CREATE2 (C07 `max_depth_create`) -/
+theorem evm_max_depth_create (cfg : Cfg) (stack : List JFrame) (w w' : World) (i : Interp.CreateInputs)
+    (mem : Memory.SharedMemory) (fr : FrameOrResult Journal.Checkpoint) (hi : LoopInv stack w)
+    (h : makeCreateFrame journalOps cfg w i mem = .ok (fr, w')) :
+    ((∃ r, fr = .result r ∧ r.result = .CallTooDeep) ↔ stack.length - 1 = CALL_STACK_LIMIT) := by
+  obtain ⟨h1, h2, h3⟩ := hi
+  obtain ⟨x, y⟩ := makeCreateFrame_depth h
+  refine ⟨fun ⟨r, hr, hc⟩ => ?_, fun hl => ?_⟩
+  · have := ((x r hr).2).1 hc; omega
+  · cases fr with
+    | result r => exact ⟨r, rfl, ((x r rfl).2).2 (by omega)⟩
+    | frame f => exact absurd (show w.js.depth > CALL_STACK_LIMIT by omega) (y f rfl).2
 
 end Revm.Props.C01Link
